@@ -397,6 +397,7 @@ contract(
     uses=list(HANDLER_KEYS.values()) + [k for k in REQUEST_KEYS],
     inline=ERR_INLINE,
     decorators_ok=RUN_IN_TASK,
+    fstrings='eval',  # handler_name = f'on_{att_pdu.name.lower()}' is computed exactly (concrete per opcode)
     native_setup=_native_pending,
     note='handlers are applied through their contracts (for @run_in_task handlers: as if the task had run to completion)',
 )
